@@ -13,6 +13,7 @@
 
 #include "libphysica/Special_Functions.hpp"
 #include "libphysica/Utilities.hpp"
+#include "libphysica/Verif_Hooks.hpp"
 
 namespace libphysica
 {
@@ -163,6 +164,14 @@ unsigned int Interpolation::Locate(double x)
 	else
 	{
 		// Use Bisection() or the Hunt method, depending of the last calls were correlated.
+		if(correlated_calls)
+		{
+			LIBPHYSICA_VERIF_TICK("Locate.hunt");
+		}
+		else
+		{
+			LIBPHYSICA_VERIF_TICK("Locate.bisection");
+		}
 		j = correlated_calls ? Hunt(x) : Bisection(x, 0, N - 1);
 	}
 	// Check if the points are still correlated.
@@ -593,6 +602,7 @@ double Find_Root(std::function<double(double)> func, double xLeft, double xRight
 		double result = -9.9e99;
 		for(int i = 0; i < Max_Iterations; i++)
 		{
+			LIBPHYSICA_VERIF_TICK("Find_Root.iteration");
 			// Mid point
 			double x3 = (x1 + x2) / 2.0;
 
@@ -688,6 +698,7 @@ struct Bracket_Method
 		fc = func(cx);
 		while(fb > fc)
 		{
+			LIBPHYSICA_VERIF_TICK("Bracket.iteration");
 			double r	= (bx - ax) * (fb - fc);
 			double q	= (bx - cx) * (fb - fa);
 			double u	= bx - ((bx - cx) * q - (bx - ax) * r) / (2.0 * Sign(std::max(std::fabs(q - r), TINY), q - r));
@@ -778,6 +789,7 @@ struct Brent : Bracket_Method
 		fw = fv = fx = func(x);
 		for(int iter = 0; iter < ITMAX; iter++)
 		{
+			LIBPHYSICA_VERIF_TICK("Brent.iteration");
 			xm	 = 0.5 * (a + b);
 			tol2 = 2.0 * (tol1 = tol * std::fabs(x) + ZEPS);
 			if(std::fabs(x - xm) <= (tol2 - 0.5 * (b - a)))
@@ -906,6 +918,7 @@ std::vector<double> Minimization::minimize(std::vector<std::vector<double>>& pp,
 	get_psum(current_simplex, psum);
 	for(;;)
 	{
+		LIBPHYSICA_VERIF_TICK("NelderMead.iteration");
 		int ihi, ilo, inhi;
 		ilo = 0;
 		// First we must determine which point is the highest (worst), next-highest, and lowest (best), by looping over the points in the simplex.
@@ -952,15 +965,21 @@ std::vector<double> Minimization::minimize(std::vector<std::vector<double>>& pp,
 		// Begin a new iteration. First extrapolate by a factor 􏰱1 through the face of the simplex across from the high point, i.e., reflect the simplex from the high point.
 		double ytry = amotry(current_simplex, y, psum, ihi, -1.0, func);
 		if(ytry <= y[ilo])
+		{
+			LIBPHYSICA_VERIF_TICK("NelderMead.expansion");
+		}
+		if(ytry <= y[ilo])
 			ytry = amotry(current_simplex, y, psum, ihi, 2.0, func);   // Gives a result better than the best point, so try an additional extrapolation by a factor 2.
 		else if(ytry >= y[inhi])
 		{
 			// The reflected point is worse than the second-highest, so look for an interme- diate lower point, i.e., do a one-dimensional contraction.
 			double ysave = y[ihi];
+			LIBPHYSICA_VERIF_TICK("NelderMead.contraction");
 			ytry		 = amotry(current_simplex, y, psum, ihi, 0.5, func);
 			if(ytry >= ysave)
 			{
 				// Can’t seem to get rid of that high point.
+				LIBPHYSICA_VERIF_TICK("NelderMead.shrink");
 				for(int i = 0; i < mpts; i++)
 				{
 					if(i != ilo)
